@@ -184,8 +184,11 @@ class Replayer:
                 elif c == "R":
                     f = line.split()
                     mf, sf = int(f[1]), int(f[2])
-                    if pend is not None:
-                        self.bad("trace:two-collections-without-allocation", ln, "unexpected trace structure")
+                    if pend is not None:      # two collections with no allocation in between ((gc) called explicitly)
+                        S["forced"] += 1
+                        req.write("gc %s\n" % pend["marks"])
+                        exp.write("%d %s\n" % (pend["ln"], pend["expR"]))
+                        seenP, growth = False, None
                     pend = self.gc_block(cur_objs, cur_fl, mf, sf, req, exp, self.gc_ln)
                     cur_objs = cur_fl = None
                 elif c == "P":
@@ -494,6 +497,70 @@ def guarded_build(ctx, limit=300):
     raise B.BuildError("the scratch build failed and left no chibi-scheme binary: " + why)
 
 
+CORPUS = os.path.join(HERE, "..", "corpus", "C10")
+
+
+def selftest(ctx, exe, consts, outdir):
+    """corpus first: a small recorded trace of the unchanged allocator must replay without any disagreement, and
+    four planted faults in copies of it must each be flagged by the spec oracle meant for them (so a check that
+    has gone blind does not pass silently)."""
+    good = os.path.join(CORPUS, "good-small.trace")
+    if not os.path.exists(good):
+        ctx.broken("corpus:missing", "corpus/C10/good-small.trace not found")
+        return
+    lines = open(good).read().split("\n")
+
+    def variant(name, edit):
+        ls = list(lines)
+        edit(ls)
+        pth = os.path.join(outdir, "c10-selftest-%s.trace" % name)
+        open(pth, "w").write("\n".join(ls))
+        rp = Replayer(pth, pth[:-6] + ".req", pth[:-6] + ".exp", unit=consts["unit"], hdr=consts["hdr"])
+        rp.run()
+        return pth, rp
+
+    def nth(ls, pred, k):
+        idx = [i for i, l in enumerate(ls) if pred(l)]
+        return idx[min(k, len(idx) - 1)]
+
+    # the recorded trace itself
+    pth, rp = variant("good", lambda ls: None)
+    with open(pth[:-6] + ".req") as fi, open(pth[:-6] + ".ans", "w") as fo:
+        subprocess.run([exe], stdin=fi, stdout=fo, timeout=300)
+    div = compare(pth[:-6] + ".exp", pth[:-6] + ".ans")
+    ctx.count(rp.stats["allocs"] + rp.stats["gcs"], key=("corpus", "good-small"))
+    if rp.spec or div:
+        ctx.broken("corpus:good-small", "the recorded trace of the unchanged allocator no longer checks: oracles=%s divergence=%s" % (rp.spec[:2], div))
+
+    def drop_f(ls):
+        del ls[nth(ls, lambda l: l.startswith("f "), 5)]
+
+    def grow_f(ls):
+        i = nth(ls, lambda l: l.startswith("f "), 3)
+        f = ls[i].split()
+        ls[i] = "f %s %d" % (f[1], int(f[2]) + 64)
+
+    def dup_a(ls):
+        i = nth(ls, lambda l: l.startswith("A "), 40)
+        ls.insert(i + 1, ls[i])
+
+    def size_o(ls):
+        i = nth(ls, lambda l: l.startswith("o "), 30)
+        f = ls[i].split()
+        ls[i] = "o %s %d %s" % (f[1], int(f[2]) + 32, f[3])
+
+    for name, edit, want in [("lost-chunk", drop_f, "sweep:heap-not-tiled"), ("chunk-too-big", grow_f, "sweep:"),
+                             ("double-allocation", dup_a, "alloc:not-inside-free-memory"),
+                             ("object-size-changed", size_o, "heap-walk:objects-differ-from-allocation-history")]:
+        pth, rp = variant(name, edit)
+        ctx.count(1, key=("corpus", name))
+        if not any(sig.startswith(want) for sig, _, _ in rp.spec):
+            ctx.broken("selftest:" + name, "a planted fault (%s) in the recorded trace was not flagged by the spec oracles: %s" % (name, rp.spec[:3]))
+    for f in os.listdir(outdir):
+        if f.startswith("c10-selftest-"):
+            os.unlink(os.path.join(outdir, f))
+
+
 def model_consts(ctx, exe):
     u, h, m = ctx.run_model(exe, ["consts"])[0].split()
     return dict(unit=int(u), hdr=int(h), min_obj=int(m))
@@ -529,6 +596,7 @@ def run(ctx):
     os.makedirs(outdir, exist_ok=True)
     for f in os.listdir(outdir):
         os.unlink(os.path.join(outdir, f))
+    selftest(ctx, exe, consts, outdir)
     total = dict(allocs=0, gcs=0, slow=0, grows=0, ooms=0)
     for (name, kind, cargs, sargs, steady, window) in workloads(ctx.thorough):
         if kind == "scm" and not complete:
